@@ -164,6 +164,15 @@ def run_property(pid, tier, seed, jobs=16, out=sys.stdout):
                     v['replay_result'] = None
         if bf is not None:
             bounded = bf.result()
+    bounded_restart = None
+    if bounded is not None and bounded.get('error'):
+        # a crash of the bounded harness is an infrastructure failure, not a verdict: it is restarted ONCE in a fresh process
+        # (thorough run #7: C05 crashed once under heavy load and never again); a second crash is reported (exit 3);
+        # the first trace is kept in the evidence either way
+        bounded_restart = bounded['error']
+        print('NOTE bounded harness crashed, restarting it once in a fresh process:\n%s' % bounded_restart[-1500:], file=out)
+        with cf.ProcessPoolExecutor(max_workers=1) as ex1:
+            bounded = ex1.submit(_job_bounded, (modname, tier, seed)).result()
 
     # ---- classify ----------------------------------------------------------
     violations = []     # (id, replay path, suffix)
@@ -311,6 +320,10 @@ def run_property(pid, tier, seed, jobs=16, out=sys.stdout):
         known_findings=[dict(id=k.get('id') or k.get('obligation') or k.get('case'), what=k.get('what')) for k, _, _ in known_hits],
         explanation=meta.get('explanation', ''),
     )
+    if bounded_restart:
+        cov['bounded_harness_restarted_after_crash'] = bounded_restart[-3000:]
+    if bounded is not None and bounded.get('error'):
+        cov['bounded_harness_error'] = bounded['error'][-3000:]
     if bounded is not None and not bounded.get('error'):
         cov['bounded'] = {k: v for k, v in bounded.items() if k != 'violations'}
         cov['bounded']['label'] = 'bounded stand-in (run-time contracts on the real functions); never counted as proved'
